@@ -502,13 +502,93 @@ Proof.
 Qed.
 
 (* ------------------------------------------------------------------ *)
+(* auth.Save of an existing name: nothing of the earlier saves survives  *)
+
+Lemma admin_default_idem a x : admin_default a (admin_default a x) = admin_default a x.
+Proof. destruct a, x; reflexivity. Qed.
+
+Definition right_of (r : access_right) (push pull : bytes) : bytes :=
+  match r with PushRight => push | PullRight => pull end.
+
+Lemma validate_user_init u r path :
+  validate_user (user_init u) r path = validate_go (u_admin u) (right_of r (u_push u) (u_pull u)) path.
+Proof. destruct r; reflexivity. Qed.
+
+Lemma validate_go_default a x path : validate_go a (admin_default a x) path = validate_go a x path.
+Proof. unfold validate_go, validate_with. rewrite admin_default_idem. reflexivity. Qed.
+
+(* one Save, on top of ANY earlier state of that name (none, or whatever was stored) *)
+Theorem save_is_fresh : forall st s,
+  exists u, save_go st s = Some u /\
+            forall r path, validate_user u r path = spec_save s r path.
+Proof.
+  intros st s. destruct st as [u0|]; cbn [save_go].
+  - eexists. split; [reflexivity|]. intros r path. unfold copy_from.
+    rewrite validate_user_init. cbn [u_admin u_push u_pull user_init].
+    unfold spec_save. rewrite <- matcher_refines_spec.
+    destruct r; cbn [right_of]; apply validate_go_default.
+  - eexists. split; [reflexivity|]. intros r path.
+    rewrite validate_user_init. cbn [u_admin u_push u_pull].
+    unfold spec_save. rewrite <- matcher_refines_spec. destruct r; reflexivity.
+Qed.
+
+(* the two-save history of the coordinator's statement *)
+Theorem resave_is_fresh : forall s1 s2,
+  exists u, save_go (save_go None s1) s2 = Some u /\
+            forall r path, validate_user u r path = spec_save s2 r path.
+Proof. intros s1 s2. apply save_is_fresh. Qed.
+
+(* any number of saves: only the last one counts *)
+Theorem history_is_last : forall saves s,
+  last_save saves = Some s ->
+  exists u, fold_left save_go saves None = Some u /\
+            forall r path, validate_user u r path = spec_save s r path.
+Proof.
+  intros saves s H. unfold last_save in H.
+  destruct (rev saves) as [|s' l] eqn:E; [discriminate|]. inversion H; subst s'.
+  assert (Es : saves = rev l ++ [s]).
+  { rewrite <- (rev_involutive saves), E. reflexivity. }
+  rewrite Es, fold_left_app. cbn [fold_left]. apply save_is_fresh.
+Qed.
+
+Lemma history_none saves : last_save saves = None -> saves = [].
+Proof.
+  unfold last_save. destruct (rev saves) eqn:E; [|discriminate]. intros _.
+  rewrite <- (rev_involutive saves), E. reflexivity.
+Qed.
+
+Lemma both_rights_ext f g paths : (forall r p, f r p = g r p) -> both_rights f paths = both_rights g paths.
+Proof.
+  intros H. unfold both_rights. induction paths as [|p paths IH]; simpl; [reflexivity|].
+  rewrite !H, IH. reflexivity.
+Qed.
+
+(* the pre-CopyFrom-order seed, as a model: init runs with the OLD admin flag *)
+Definition copy_from_late_admin (u src : user) (with_pw : bool) : user :=
+  let v := user_init (mkUser (u_admin u) (if with_pw then u_pw src else u_pw u)
+                             (u_push src) (u_pull src) (u_pushm u) (u_pullm u)) in
+  mkUser (u_admin src) (u_pw v) (u_push v) (u_pull v) (u_pushm v) (u_pullm v).
+
+(* demote an administrator with empty rights: the late assignment leaves '*' in force *)
+Example late_admin_refuted :
+  let adm := user_init (mkUser true [] [] [] [] []) in
+  let plain := user_init (mkUser false [] [] [] [] []) in
+  validate_user (copy_from_late_admin adm plain false) PullRight [47; 97] = true /\
+  validate_user (copy_from adm plain false) PullRight [47; 97] = false.
+Proof. vm_compute. auto. Qed.
+
+(* ------------------------------------------------------------------ *)
 (* the oracle accepts the model                                         *)
 
 Theorem run_case_is_spec : forall c, run_case c = spec_case c.
 Proof.
-  intros [admin rt paths | mask paths]; unfold run_case, spec_case; apply map_ext; intros p.
-  - apply matcher_refines_spec.
-  - apply matcher_is_spec.
+  intros [admin rt paths | mask paths | saves paths]; unfold run_case, spec_case.
+  - apply map_ext; intros p. apply matcher_refines_spec.
+  - apply map_ext; intros p. apply matcher_is_spec.
+  - destruct (last_save saves) as [s|] eqn:E.
+    + destruct (history_is_last saves s E) as [u [Hu Hv]]. rewrite Hu.
+      apply both_rights_ext. exact Hv.
+    + rewrite (history_none saves E). reflexivity.
 Qed.
 
 Theorem model_passes_oracle : forall c, ok_case c (enc_answers (run_case c)) = true.
